@@ -50,6 +50,7 @@ const (
 	kCall
 	kFeeDeleg
 	kTransferName
+	kSetOwner
 	// adversarial (C04)
 	kBadSig     = 20
 	kWrongChain = 21
@@ -161,6 +162,9 @@ func (w *World) Run(x *simkit.Ctx) {
 		from := r.Intn(nacc)
 		to := r.Intn(nacc)
 		kind := []int{kTransfer, kTransfer, kTransferNew, kStake, kUnstake, kVoteBP, kVoteDAO, kNameCreate, kNameUpdate, kDeploy, kCall, kCall, kFeeDeleg, kTransferName}[r.Intn(14)]
+		if r.Chance(1, 40) {
+			kind = kSetOwner // once per chain: the name contract's balance goes to the named owner (possibly the sender itself)
+		}
 		nd := 0
 		if r.Chance(1, 8) {
 			nd = r.Range(-2, 3)
@@ -395,6 +399,8 @@ func (e *env) buildTx(st *simkit.Step) (tx *types.Tx, adversarial string) {
 		name := e.names[int(st.V)%len(e.names)]
 		price := new(big.Int).Mul(unit, big.NewInt(1000))
 		return gov(types.AergoName, `{"Name":"v1updateName","Args":["`+name+`","`+types.EncodeAddress(net.Accounts[to].Addr)+`"]}`, price), ""
+	case kSetOwner:
+		return gov(types.AergoName, `{"Name":"v1setOwner","Args":["`+types.EncodeAddress(net.Accounts[to].Addr)+`"]}`, new(big.Int)), ""
 	case kDeploy:
 		tx := simnode.SignedTx(acc, nonce, nil, amt, types.TxType_DEPLOY, []byte(st.S), cid, 0)
 		e.deployed = append(e.deployed, contract.CreateContractID(acc.Addr, nonce))
@@ -825,6 +831,13 @@ func (e *env) checkConservation(store interface {
 			if x.FailKnownOrStop("C01", "supply-changed", "minted-by-"+knownFeeDelegSig, fmt.Sprintf("block %d: supply grew by %s = what fee-delegated calls sent away before failing with %q", blk.BlockNo(), known, types.ErrInsufficientBalance), e.stepIdx) {
 				return
 			}
+			return
+		}
+	}
+	if sa.Cmp(want) < 0 && rcpts != nil {
+		if burn := setOwnerSelfBurn(blk, rcpts.Get(), before); burn.Sign() > 0 && new(big.Int).Sub(want, sa).Cmp(burn) == 0 {
+			x.Probe("setowner-naming-the-sender")
+			x.FailKnownOrStop("C01", "supply-changed", "burned-by-"+knownSetOwnerSig, fmt.Sprintf("block %d: supply shrank by %s = the balance of %s when a v1setOwner named its own sender", blk.BlockNo(), burn, types.AergoName), e.stepIdx)
 			return
 		}
 	}
